@@ -254,9 +254,13 @@ def run(ctx: Ctx):
     else:
         ctx.use(hq)
         rets = [x for x in ast.walk(hq.node) if isinstance(x, ast.Return) and x.value is not None]
-        okq = len(rets) == 1 and ast.unparse(rets[0].value).replace(" ", "") in (
-            "self._write_msg_queue.unfinished_tasks>0", "self._write_msg_queue.unfinished_tasks!=0",
-            "bool(self._write_msg_queue.unfinished_tasks)")
+        okq = False
+        if len(rets) == 1:
+            a_ = Atomizer(model, pcx.module, pcx).atom(rets[0].value)
+            subj = "self._write_msg_queue.unfinished_tasks"
+            okq = (a_.subject == subj and a_.op == ">" and str(a_.value) == "0" and not a_.flip) \
+                or (a_.subject == subj and a_.op == "==" and a_.value == 0 and a_.flip) \
+                or (a_.subject in (subj, f"bool({subj})") and a_.op == "truthy" and not a_.flip)
         if not okq:
             ctx.fail(cons, hq.loc(), "has_queued_messages is not `_write_msg_queue.unfinished_tasks > 0`: "
                      "qsize()/empty() miss the message the writer has dequeued but not yet appended")
